@@ -702,6 +702,25 @@ def groupRsa {D : Type} (dec : D → String → Option String) (m : List (String
     | none => .err
     | some plain => .ok plain
 
+/-- why `bindFeaturedRoutes` binds nothing of a group -/
+inductive BindErr where
+  | signatureConfig      -- ErrSignatureConfig: strict without keys
+  | keyFile              -- a configured key file could not be loaded
+  deriving Repr, DecidableEq
+
+/-- `signatureVerifier` with the key loading: the decision list first, then — only for a group that gets the gate — the
+loop over the group's keys; any failure means NO route of the group is bound (fail closed) -/
+def verifierFor {D : Type} (load : String → Option D) (o : RouteOpts) (keys : List KeyConf) :
+    Except BindErr (List String → List String) :=
+  match signatureVerifier o with
+  | none => .error .signatureConfig
+  | some v =>
+    if o.sig && o.sigKeys then
+      match loadDecrypters load keys with
+      | none => .error .keyFile
+      | some _ => .ok v
+    else .ok v
+
 /-! ## RSA chunking (core/codec/rsa.go `rsaBase.crypt`) -/
 
 def mapChunks (f : Bytes → Option Bytes) : List Bytes → Option Bytes
